@@ -72,6 +72,21 @@ theorem C{n}_share {{α : Type}} :
     ∀ s, SReach (Share.machine α) s → SafeFor {p} s :=
   fun s hs => safeFor_of_onlyLateDelivery _ s hs (ShareWeak.share_safe_weak s hs).1 (ShareWeak.share_safe_weak s hs).2 {p} (by decide)
 """
+    if n in ("01", "17"):
+        full += f"""
+/-- `share` under the WIDER cross-sink environment (`SemCS.lean`: while share is delivering to one sink any live sink may pull or dispose —
+`merge!(s, s)` over a shared `s`): its only deviations are late deliveries (C02/C03: KF5a–KF5c) and a Pull forwarded to an upstream
+that has just ended (C04: KF5d); hence C{n} holds on those histories too (`Inv/ShareCS.lean`). -/
+theorem C{n}_share_cross_sink {{α : Type}} :
+    ∀ s, CSReach (Share.machine α) s → SafeFor {p} s := by
+  intro s hs
+  obtain ⟨hv, hx, hp⟩ := ShareCS.share_safe_cs s hs
+  refine ⟨?_, fun _ => hp⟩
+  intro v hm
+  unfold G.viols at hm
+  rw [hx, List.nil_append] at hm
+  rcases hv v hm with ⟨k, rfl⟩ | ⟨k, rfl⟩ | ⟨i, rfl⟩ <;> simp [Viol.prop]
+"""
     return full + f"""/-- `combine!`: the full phase-level safety statement is false (known findings KF2, KF3: messages to members that are not
 live, a C04 matter); what is proved is that those are the ONLY phase-level violations, hence C{n} holds in full. -/
 theorem C{n}_combine {{α : Type}} (n : Nat) :
@@ -85,4 +100,4 @@ theorem C{n}_share_partial {{α : Type}} :
     ∀ s, SReachR (Share.machine α) noNestedFanout s → SafeFor {p} s :=
   fun s hs => safeFor_of_basicSafe _ s hs.weaken (Share.share_basicSafe_partial s hs) {p} (by decide)
 """
-OPS_IMPORT_EXTRA = ["Combine", "Share", "ShareWeak", "Readable", "MonSound"]
+OPS_IMPORT_EXTRA = ["Combine", "Share", "ShareWeak", "Readable", "MonSound", "ShareCS"]
